@@ -158,7 +158,7 @@ class LibMixin:
         if isinstance(fv, VBuiltin):
             return self.builtin_call(st, fv, args, kwargs, node)
         if isinstance(fv, VExcClass):
-            return [(st, VExc(fv.name, tuple(args)))]
+            return [(st, VExc(fv.name, tuple(args), None, kw=tuple(kwargs.items())))]
         if isinstance(fv, VClass):
             return self.instantiate(st, fv, args, kwargs)
         if isinstance(fv, (VU, VOpaque, VConst)):
@@ -510,6 +510,14 @@ class LibMixin:
                 return [(st, VTuple(v.args))]
             if name == "__class__":
                 return [(st, VExcClass(v.cls))]
+            attrs = st.ghost.get("exc_attrs", {})
+            if (v.uid, name) in attrs:
+                return [(st, attrs[(v.uid, name)])]
+            for k, val in v.kw:
+                if k == name:
+                    return [(st, val)]
+            if name in ("token", "template_name", "__cause__"):
+                return [(st, NONE)]
             return self.opaque_call(st, f"exc.{name}", [], pure=True)
         if isinstance(v, VExcClass) and name == "__name__":
             return [(st, const(v.name))]
@@ -540,6 +548,11 @@ class LibMixin:
             return [(st, None)]
         if isinstance(obj, VFunc):
             self.__dict__.setdefault("_func_attrs", {})[(id(obj.node), name)] = val
+            return [(st, None)]
+        if isinstance(obj, VExc):
+            attrs = dict(st.ghost.get("exc_attrs", {}))
+            attrs[(obj.uid, name)] = val
+            st.ghost["exc_attrs"] = attrs
             return [(st, None)]
         if isinstance(obj, (VU, VOpaque)):
             st.log.append(("setattr-opaque", name))
